@@ -160,8 +160,11 @@ def inputs_from_states(states, contig_len):
         bedlines = [[1, s, e, "b"] for s in range(0, maxend + 1) for e in range(s, maxend + 1)]
         if len(bedlines) != len(st["expect"]):
             raise MachineryError("bin enumeration does not match the model's")
+        # every enumerated state runs serially and against the other algorithm; every 6th also through a 2-worker pool
+        # with 7-line chunks (starting a process pool per state is what dominates the cost of this check)
+        settings = [[1, 0], [2, 7]] if len(out) % 6 == 0 else [[1, 0]]
         inp = _mk_input(reads, bedlines, 4, [contig_len], NAMINGS[0], bool(st["bycount"]), st["minq"],
-                        [[1, 0], [2, 7]], cross=True)
+                        settings, cross=True)
         inp["expect"] = list(st["expect"])
         out.append(inp)
     return out
